@@ -37,6 +37,8 @@ func classifyBuildErr(msg string) string {
 	first := firstLine(msg)
 	has := func(s string) bool { return strings.Contains(first, s) }
 	switch {
+	case has("File cannot contain byte zero"):
+		return "lexical" // the line of the specification's token "X" (a NUL byte): refused by the scanner
 	case has("is already defined for the directive"):
 		return "paramdup"
 	case has(jerr.DirectiveJSIGHTShouldBeTheFirst):
